@@ -288,7 +288,9 @@ def gen_cases(rng, thorough: bool) -> list:
                              ("string", "output"), ("unique", "Y")):
             for val in (seq_bad, seq_ok, A("f64", [1], 3), A("i64", [2], 3), {"r": "none"},
                         {"r": "scalar", "dt": "f64", "pid": 3}, {"r": "ragged"}, A("i64", [1, 2], 3),
-                        A("str", [2], 3), A("object", [2], 3)):
+                        A("str", [2], 3), A("object", [2], 3), A("object", [3], 3), A("object", [2, 1], 3),
+                        A("object", [], 3), A("str", [3], 3),
+                        {"r": "list", "xs": [A("object", [3], 3)]}):
                 add(sel, {"kind": "real", "op": opn}, {"names": [outname], "vals": [val]})
             add(sel, {"kind": "real", "op": opn}, {"names": ["nope"], "vals": [seq_ok]})
             add(sel, {"kind": "real", "op": opn}, {"raise": {"isExc": True, "id": rng.randrange(16)}},
